@@ -483,7 +483,7 @@ func (w *world) idleAccrual(snap []idlePool, op string) (ok bool) {
 		}
 		run.Probe("idle-accrual-checked")
 		scale := rint(1)
-		if p.scaled {
+		if p.iscaled {
 			scale = rfromInt(pow10(27).BigInt())
 		}
 		// growth per unit of liquidity is truncated at 18 digits per record (times the active liquidity, over the scaling
@@ -605,7 +605,7 @@ func (w *world) incentiveConservation(op string, before map[uint64]*incExcess) b
 		}
 		per := new(big.Int).Quo(liq.BigInt(), new(big.Int).Exp(big.NewInt(10), big.NewInt(18), nil)) // liq (18-digit decimal) as integer
 		per.Quo(per, new(big.Int).Exp(big.NewInt(10), big.NewInt(18), nil))
-		if p.scaled {
+		if p.iscaled {
 			per.Quo(per, new(big.Int).Exp(big.NewInt(10), big.NewInt(27), nil))
 		}
 		slack := new(big.Int).Mul(per, big.NewInt(6))
